@@ -118,14 +118,16 @@ theorem noFault_of_eq_total {α} {x y : Out α} (h : x = y) (hy : y.isFault = fa
 
 /-- **raw_decoders_safe** — for ALL option contents `d` (the memory is exactly the option's `data_size()` bytes), the pointer walks of
     the ICMPv6 typed decoders (`naack`, `lladdr`, `handover_key_req/reply`, `handover_assist_info` / `mobile_node_id`,
-    `dns_search_list`) stay inside the option: each equals `ok` of the total decoder of `Wire/Icmp/Icmp6.lean` -/
+    `dns_search_list`, and the `*stream.pointer()` peeks of `prefix_info` / `map`) stay inside the option: each equals `ok` of the total decoder of `Wire/Icmp/Icmp6.lean` -/
 theorem raw_decoders_safe_icmp6 (d : Bytes) :
     (Wire.Raw.Icmp6.naack d).isFault = false ∧ (Wire.Raw.Icmp6.lladdr d).isFault = false ∧
     (Wire.Raw.Icmp6.codeLen d).isFault = false ∧ (Wire.Raw.Icmp6.handoverReq d).isFault = false ∧
-    (Wire.Raw.Icmp6.handoverReply d).isFault = false ∧ (Wire.Raw.Icmp6.dnsSearch d).isFault = false :=
+    (Wire.Raw.Icmp6.handoverReply d).isFault = false ∧ (Wire.Raw.Icmp6.dnsSearch d).isFault = false ∧
+    (Wire.Raw.Icmp6.prefixInfo d).isFault = false ∧ (Wire.Raw.Icmp6.mapOpt d).isFault = false :=
   ⟨noFault_of_eq_ok (Wire.Raw.Icmp6.naack_eq d), noFault_of_eq_ok (Wire.Raw.Icmp6.lladdr_eq d),
    noFault_of_eq_ok (Wire.Raw.Icmp6.codeLen_eq d), noFault_of_eq_ok (Wire.Raw.Icmp6.handoverReq_eq d),
-   noFault_of_eq_ok (Wire.Raw.Icmp6.handoverReply_eq d), noFault_of_eq_ok (Wire.Raw.Icmp6.dnsSearch_eq d)⟩
+   noFault_of_eq_ok (Wire.Raw.Icmp6.handoverReply_eq d), noFault_of_eq_ok (Wire.Raw.Icmp6.dnsSearch_eq d),
+   noFault_of_eq_ok (Wire.Raw.Icmp6.prefixInfo_eq d), noFault_of_eq_ok (Wire.Raw.Icmp6.mapOpt_eq d)⟩
 
 /-- the Dot11 management-frame decoders (`channel_switch`, `fh_pattern`, `tim`, `ibss_dfs`, `country`, `vendor_specific`, the rates
     converter): raw walk = total decoder of `Wire/Wifi/Tagged.lean`, hence no fault -/
